@@ -116,6 +116,24 @@ func BuildNode(n Node) any {
 			return f
 		}
 		return txt
+	case "ptr":
+		x, _ := n["x"].(map[string]any)
+		return ptrTo(BuildNode(x), argIntDefault(n["d"], 1))
+	case "sl":
+		return buildSlice(n)
+	case "mp":
+		m := map[string]int{}
+		ks, _ := n["ks"].([]any)
+		vs, _ := n["vs"].([]any)
+		for i := range ks {
+			k := Detok(anyToks(ks[i]))
+			v, _ := strconv.Atoi(Detok(anyToks(vs[i])))
+			m[k] = v
+		}
+		return m
+	case "st":
+		a, _ := strconv.Atoi(Detok(nToks(n, "a")))
+		return eqStruct{A: a, p: Detok(nToks(n, "p")), C: Detok(nToks(n, "c"))}
 	case "stk":
 		s := BuildStack(n)
 		switch nStr(n, "form") {
@@ -208,4 +226,98 @@ func BuildCond(n Node) stackage.Condition {
 		c.SetEncap(enc...)
 	}
 	return c
+}
+
+
+// eqStruct: a struct leaf with an unexported field between exported ones (C05)
+type eqStruct struct {
+	A int
+	p string
+	C string
+}
+
+func anyToks(x any) []string {
+	var out []string
+	if l, ok := x.([]any); ok {
+		for _, e := range l {
+			s, _ := e.(string)
+			out = append(out, s)
+		}
+	}
+	return out
+}
+
+func argIntDefault(x any, d int) int {
+	if f, ok := x.(float64); ok {
+		return int(f)
+	}
+	if i, ok := x.(int); ok {
+		return i
+	}
+	return d
+}
+
+func ptrTo(v any, depth int) any {
+	for i := 0; i < depth; i++ {
+		switch tv := v.(type) {
+		case int:
+			v = &tv
+		case *int:
+			v = &tv
+		case string:
+			v = &tv
+		case *string:
+			v = &tv
+		case bool:
+			v = &tv
+		case []int:
+			v = &tv
+		case eqStruct:
+			v = &tv
+		case *eqStruct:
+			v = &tv
+		default:
+			return v
+		}
+	}
+	return v
+}
+
+// buildSlice builds []int / []string / [][]int or arrays [1..3]int of the element leaves
+func buildSlice(n Node) any {
+	kids := nKids(n, "e")
+	arr := nBool(n, "arr")
+	if len(kids) > 0 && nStr(kids[0], "t") == "sl" {
+		out := [][]int{}
+		for _, k := range kids {
+			inner, _ := buildSlice(k).([]int)
+			out = append(out, inner)
+		}
+		return out
+	}
+	if len(kids) > 0 && nStr(kids[0], "ty") == "str" {
+		out := []string{}
+		for _, k := range kids {
+			out = append(out, Detok(nToks(k, "v")))
+		}
+		return out
+	}
+	ints := []int{}
+	for _, k := range kids {
+		i, _ := strconv.Atoi(Detok(nToks(k, "v")))
+		ints = append(ints, i)
+	}
+	if arr {
+		switch len(ints) {
+		case 1:
+			return [1]int{ints[0]}
+		case 2:
+			return [2]int{ints[0], ints[1]}
+		case 3:
+			return [3]int{ints[0], ints[1], ints[2]}
+		case 4:
+			return [4]int{ints[0], ints[1], ints[2], ints[3]}
+		}
+	}
+	return ints
 }
